@@ -600,7 +600,38 @@ class Body:
         v = self.local_val(place['l'], depth)
         for e in place['p']:
             v = v.with_proj(proj_str(e))
+        if v.kind == 'agg' and v.projs:
+            # a component of a value that was just put together: `(a, b).0` is `a`
+            v2 = self._agg_component(v)
+            if v2 is not None:
+                return v2
         return v
+
+    def _agg_component(self, v):
+        projs = [p for p in v.projs]
+        # look through reference noise in front of the field selection
+        i = 0
+        while i < len(projs) and projs[i] in ('ref', 'deref'):
+            i += 1
+        if i >= len(projs):
+            return None
+        kind, name, variant, ops = v.key
+        p = projs[i]
+        rest = projs[i + 1:]
+        if p.startswith('as '):
+            if kind == 'adt' and variant and p[3:] != variant:
+                return None
+            if not rest or not (rest[0].startswith('.') and rest[0][1:].isdigit()):
+                return None
+            p, rest = rest[0], rest[1:]
+        if p.startswith('.') and p[1:].isdigit() and int(p[1:]) < len(ops) and kind in ('tuple', 'adt', 'closure'):
+            nv = ops[int(p[1:])]
+            for q in rest:
+                nv = nv.with_proj(q)
+            if nv.kind == 'agg' and nv.projs:
+                return self._agg_component(nv) or nv
+            return nv
+        return None
 
     def val(self, operand, depth=0):
         k = operand['k']
